@@ -51,7 +51,8 @@ def spawn_worker(args):
 
 def engine_a(rep, tier, seed, cov):
     rng = core.stream(core.run_seed(seed, "c21a", 0), "fault")
-    wls = ["cl_mgvi", "cl_geovi", "cl_map", "cl_multi_lh", "cl_multi_lh_geovi", "jax_vi", "draws"]
+    wls = ["cl_mgvi", "cl_geovi", "cl_map", "cl_multi_lh", "cl_multi_lh_geovi", "jax_vi", "draws",
+           "cl_cfm", "cl_odir_latest", "cl_odir_all", "jax_cfm", "jax_odir"]
     nhs, nparam = (5, 1) if tier == "quick" else (10, 6)
     jobs = []
     for wl in wls:
@@ -114,23 +115,47 @@ def strategy_run(job):
     harness.quiet()
     p = job["problem"]
 
-    def fwd(x):
-        return x["a"] * jnp.exp(0.3 * x["b"]) + x["c"]
-    dom = {k: jft.ShapeWithDtype((3,), float) for k in "abc"}
+    if p.get("size") == "large":
+        # 64 parameters, 32 data points and a forward operator with a wide singular spectrum: the linear
+        # sampling CG needs more than 20 iterations (periodic residual recomputation, long recurrences)
+        nd = 32
+        rs = np.random.default_rng(7)
+        U, _ = np.linalg.qr(rs.normal(size=(nd, nd)))
+        V, _ = np.linalg.qr(rs.normal(size=(nd, nd)))
+        A = jnp.asarray(U @ np.diag(np.logspace(-1.5, 1.0, nd)) @ V.T)
+
+        def fwd(x):
+            return A @ (x["a"] * jnp.exp(0.2 * x["b"])) + x["c"]
+        dom = {"a": jft.ShapeWithDtype((nd,), float), "b": jft.ShapeWithDtype((nd,), float),
+               "c": jft.ShapeWithDtype((nd,), float)}
+        data = jnp.asarray(rs.normal(size=nd)) + 0.01 * p["param"]
+        # stop on the residual norm: with unit prior metric the position error is <= resnorm, far below the tolerance
+        cgkw = dict(resnorm=1e-9, maxiter=200)
+    else:
+        def fwd(x):
+            return x["a"] * jnp.exp(0.3 * x["b"]) + x["c"]
+        dom = {k: jft.ShapeWithDtype((3,), float) for k in "abc"}
+        data = jnp.array([0.3, -1.2, 2.0]) + 0.01 * p["param"]
+        cgkw = dict(absdelta=1e-10, maxiter=30)
     m = jft.Model(fwd, domain=dom)
-    lh = jft.Gaussian(jnp.array([0.3, -1.2, 2.0]) + 0.01 * p["param"], noise_std_inv=lambda x: x / 0.5).amend(m)
+    lh = jft.Gaussian(data, noise_std_inv=lambda x: x / 0.5).amend(m)
     k1, k2 = jr.split(jr.PRNGKey(p["param"]))
     pos = jft.Vector(jft.random_like(k1, m.domain)) * 0.1
     out = {}
     for v in job["variants"]:
+        if v.get("solvers") == "eager":
+            # the library's default (eager Python) minimisers - only legal with the loop map and without minimiser JIT
+            dl = dict(cg_name=None, cg_kwargs=dict(cgkw))
+            nl = dict(minimize_kwargs=dict(name=None, xtol=1e-8, maxiter=3, cg_kwargs=dict(name=None)))
+        else:
+            # jittable (static) samplers so that every residual map is a legal choice
+            dl = dict(cg=jft.conjugate_gradient.static_cg, cg_name=None, cg_kwargs=dict(cgkw))
+            nl = dict(minimize=jft.optimize._static_newton_cg,
+                      minimize_kwargs=dict(name=None, xtol=1e-8, maxiter=3, cg_kwargs=dict(name=None)))
         kw = dict(
             key=k2, n_total_iterations=2, n_samples=p["n_samples"], sample_mode=p["sample_mode"],
             constants=tuple(p["constants"]), point_estimates=tuple(p["point_estimates"]),
-            # jittable (static) samplers so that every residual map is a legal choice
-            draw_linear_kwargs=dict(cg=jft.conjugate_gradient.static_cg, cg_name=None,
-                                    cg_kwargs=dict(absdelta=1e-10, maxiter=30)),
-            nonlinearly_update_kwargs=dict(minimize=jft.optimize._static_newton_cg,
-                                           minimize_kwargs=dict(name=None, xtol=1e-8, maxiter=3, cg_kwargs=dict(name=None))),
+            draw_linear_kwargs=dl, nonlinearly_update_kwargs=nl,
             kl_kwargs=dict(minimize_kwargs=dict(name=None, xtol=1e-8, maxiter=4, cg_kwargs=dict(name=None))),
             residual_map=v["residual_map"], kl_map=v["kl_map"], jit=v["jit"],
             linear_minimizer_jit=v["lin_jit"], nonlinear_minimizer_jit=v["nl_jit"])
@@ -157,37 +182,55 @@ def variants():
                     vs.append({"residual_map": rm, "kl_map": km, "jit": jit, "lin_jit": mj, "nl_jit": mj})
     vs.append({"residual_map": "lmap", "kl_map": "vmap", "jit": True, "lin_jit": True, "nl_jit": False})
     vs.append({"residual_map": "lmap", "kl_map": "vmap", "jit": True, "lin_jit": False, "nl_jit": True})
+    # the library's default eager minimisers (what a user gets without asking for minimiser JIT)
+    for km in ("vmap", "smap", "lmap"):
+        for jit in (True, False):
+            if km == "lmap" and jit:
+                continue
+            vs.append({"residual_map": "lmap", "kl_map": km, "jit": jit, "lin_jit": False, "nl_jit": False,
+                       "solvers": "eager"})
     return vs
+
+
+TOL_B = 1e-6     # "beyond round-off": max abs deviation relative to the result scale
 
 
 def compare_b(problem, res):
     vs = variants()
-    ref_key = json.dumps({"residual_map": "lmap", "kl_map": "vmap", "jit": True, "lin_jit": False, "nl_jit": False},
-                         sort_keys=True)
+    # reference = the driver's documented defaults: loop map for residuals, vmap for the KL, jit, eager minimisers
+    ref_key = json.dumps({"residual_map": "lmap", "kl_map": "vmap", "jit": True, "lin_jit": False, "nl_jit": False,
+                          "solvers": "eager"}, sort_keys=True)
     ref = res[ref_key]
     if isinstance(ref, str):
         raise Violation({"oracle": "strategy-run-raised", "variant": "default"}, ref)
     ref = np.array(ref)
     scale = max(1.0, float(np.max(np.abs(ref))))
+    worst = 0.0
     for k, v in sorted(res.items()):
         if isinstance(v, str):
             raise Violation({"oracle": "strategy-run-raised", "variant": k}, v)
         v = np.array(v)
-        if v.shape != ref.shape or not np.all(np.abs(v - ref) <= 1e-6 * scale):
+        if v.shape == ref.shape:
+            worst = max(worst, float(np.max(np.abs(v - ref))) / scale)
+        if v.shape != ref.shape or not np.all(np.abs(v - ref) <= TOL_B * scale):
             err = float(np.max(np.abs(v - ref))) if v.shape == ref.shape else -1
             raise Violation({"oracle": "strategy-changes-result", "variant": k},
                             f"max abs deviation {err:.3e} (scale {scale:.3g}) for problem {problem}")
+    return worst
 
 
 def engine_b(rep, tier, seed, cov):
     rng = core.stream(core.run_seed(seed, "c21b", 0), "workload")
     nprob = 1 if tier == "quick" else 16
     problems = [{"param": 11 + seed % 97, "n_samples": 2, "sample_mode": "nonlinear_update",
-                 "constants": [], "point_estimates": ["c"]}]
+                 "constants": [], "point_estimates": ["c"]},
+                {"param": 5 + seed % 89, "n_samples": 2, "sample_mode": "linear_resample",
+                 "constants": [], "point_estimates": [], "size": "large"}]
     for i in range(nprob):
         problems.append({"param": rng.randrange(1, 500), "n_samples": rng.choice([1, 2, 3]),
                          "sample_mode": rng.choice(["linear_resample", "nonlinear_resample", "nonlinear_update"]),
-                         "constants": rng.choice([[], ["a"]]), "point_estimates": rng.choice([[], ["c"]])})
+                         "constants": rng.choice([[], ["a"]]), "point_estimates": rng.choice([[], ["c"]]),
+                         "size": rng.choice(["small", "small", "large"])})
     jobs = [{"problem": p, "variants": [v]} for p in problems for v in variants()]   # one XLA build per job
     res = harness.pmap(strategy_run, jobs, chunk=1, hang_s=1500)
     n = 0
@@ -202,7 +245,8 @@ def engine_b(rep, tier, seed, cov):
         byprob.setdefault(json.dumps(jb["problem"], sort_keys=True), {}).update(r)
     for pj, r in sorted(byprob.items()):
         try:
-            compare_b(json.loads(pj), r)
+            w = compare_b(json.loads(pj), r)
+            cov["b_max_relative_deviation_seen"] = max(cov.get("b_max_relative_deviation_seen", 0.0), w)
         except Violation as v:
             rep.violation(v.sig, {"engine": "repro/strategy", "problem": json.loads(pj), "detail": v.detail})
     cov["b_strategy_runs"] = n
